@@ -243,7 +243,7 @@ void start_reader(std::shared_ptr<Conn> c, int dir)
 	else
 	{
 		R.wait_style = true;
-		sk.async_wait(tcp::socket::wait_read, [c, dir, gen, mb](boost::system::error_code const& ec) {
+		sk.async_wait(tcp::socket::wait_read, [c, dir, gen, mb, rstyle](boost::system::error_code const& ec) {
 			if (c->R->in_call) c->R->fail05("a wait handler ran inside the initiating call");
 			if (c->gen != gen) return;
 			c->st[dir].read_outstanding = false;
@@ -251,11 +251,18 @@ void start_reader(std::shared_ptr<Conn> c, int dir)
 			if (reader2 == 0 ? c->cli_closed : c->srv_closed) return;
 			if (ec && ec != sa::error::eof) { on_read_error(c, dir, ec); return; }
 			tcp::socket& sk2 = sock_of(*c, reader2);
-			for (int guard = 0; guard < 100000; ++guard)
+			// style 1 drains the socket on every wake-up; style 2 takes one chunk and waits again (so that data and the
+			// peer's end-of-file are queued together when the next wait is started)
+			for (int guard = 0; guard < (rstyle == 2 ? 1 : 100000); ++guard)
 			{
-				boost::system::error_code e2;
+				boost::system::error_code e2, e3;
+				std::size_t const avail = sk2.available(e3);
 				std::size_t n = sk2.read_some(mb, e2);
 				if (e2 == sa::error::would_block) break;
+				if (!e2 && n > 0 && guard == 0 && ec == sa::error::eof)
+				{ c->R->fail05(fmt("conn %d dir %d: wait-for-read completed with end-of-file although %zu more bytes could still be read", c->idx, dir, n)); return; }
+				if (!e2 && n > 0 && e3 == sa::error::eof)
+				{ c->R->fail05(fmt("conn %d dir %d: available() reported end-of-file (and %zu bytes) although %zu more bytes could still be read", c->idx, dir, avail, n)); return; }
 				if (e2) { on_read_error(c, dir, e2); return; }
 				on_read_bytes(c, dir, n);
 				if (!c->R->err05.empty()) return;
@@ -500,7 +507,7 @@ Verdict run_case(Case const& c, Ctx& ctx)
 		else if (r.name == "xfer" && r.a.size() >= 8)
 		{
 			ConnSpec* s = spec_of(specs, r.a[0]); if (!s || !s->present || s->gens.empty() || s->gens.back().xf.size() >= 4) continue;
-			Xfer x{r.a[1] ? 1 : 0, std::max(0LL, std::min(2000000LL, r.a[2])), int(r.a[3]), int(r.a[4]), int(r.a[5]), int(r.a[6]), r.a[7] ? 1 : 0};
+			Xfer x{r.a[1] ? 1 : 0, std::max(0LL, std::min(2000000LL, r.a[2])), int(r.a[3]), int(r.a[4]), int(r.a[5]), int(r.a[6]), r.a[7] == 2 ? 2 : r.a[7] ? 1 : 0};
 			s->gens.back().xf.push_back(x);
 		}
 	}
@@ -833,7 +840,7 @@ rc::Gen<Rec> gen_q(char const* name, std::vector<long long> prefix, int mode, in
 rc::Gen<Rec> gen_xfer(long long c, long long maxtotal, int dirmode)
 {
 	auto total = rc::gen::oneOf(kit::weighted({{1, 0}, {1, 1}, {2, 1475}, {2, 3000}, {3, 20000}, {2, 60000}}), kit::range(1, maxtotal));
-	return rc::gen::map(rc::gen::tuple(kit::range(0, 1), total, kit::range(0, 9), kit::range(1, 4), kit::range(0, 7), kit::range(1, 3), kit::weighted({{2, 0}, {1, 1}})),
+	return rc::gen::map(rc::gen::tuple(kit::range(0, 1), total, kit::range(0, 9), kit::range(1, 4), kit::range(0, 7), kit::range(1, 3), kit::weighted({{3, 0}, {1, 1}, {1, 2}})),
 		[c, maxtotal, dirmode](std::tuple<long long, long long, long long, long long, long long, long long, long long> t) {
 			long long dir = dirmode == 2 ? std::get<0>(t) : dirmode;
 			long long total = std::min(maxtotal, std::get<1>(t));
